@@ -1,4 +1,6 @@
 import UberjobModel.Lemmas.CacheHistory
+import UberjobModel.Lemmas.ExecFinal
+import UberjobModel.Props.C04
 /-!
 # C03 — an incremental run gives the same outputs and stored values as from scratch
 
@@ -50,6 +52,165 @@ theorem C03_write_value {P : LPlan} (hP : P.WF) {w : World} (hg : Good P w) {i :
   apply List.map_congr_left
   intro p hp
   exact seen_eq_FS hP hg p (hpreds p (hP.argsSub i p hp))
+
+/-! ### End to end: the stale check, the physical plan, the engine and the stores together
+
+The theorems above take the store events of a run as given.  The ones below derive them: `Exec.execOrder` applies the
+effect of every node of the physical plan (`run_physical.py`: a user call computes from the result slots of its argument
+nodes, `read i` fills its slot from store `i`, `write i` stores the result of `orig i` with a newer modified time) in
+the order in which a schedule of the ENGINE model (`run_function_on_graph.py`) completes them, on the plan that
+`plan_with_value_stores` + `prune_plan` build (`Phys.physFinal`) from the stale set the stale check computes
+(`Exec.Setup.stale`).  Quantified over every well-formed plan and registry, every store state satisfying `Good`, every
+`fresh_time`, every worker count, `max_errors`, queue discipline and interleaving.  Sources must be up to date
+(`Setup.srcFresh`: C03's "sources hold a value"; dependent sources that are out of date are rewritten by user code,
+which is covered by the store-level theorems above, not by this execution model). -/
+
+open Uberjob.Phys Uberjob.Exec in
+/-- **A run that returns normally, under ANY schedule**: every non-source store holds its from-scratch value, the
+    from-scratch values are those of the initial state (the run changes no source), and the node whose result `run`
+    returns holds the from-scratch value of the requested output. -/
+theorem C03_end_to_end {P : Input} {w0 : World} {F : Option Int} {c0 : Int} (S : Setup P w0 F c0)
+    {cfg : Engine.Cfg} (hw : 1 ≤ cfg.workers) {s : Engine.St} (h : Engine.Reach (engineGraph P) cfg s)
+    (hc : s.coord = .returned false) (hf : s.failed = []) :
+    let xf := execOrder P (initX w0 c0) s.okd
+    (∀ k, FS P.toLPlan xf.w k = FS P.toLPlan w0 k) ∧
+    (∀ i v t, P.regOf i = some false → xf.w.st i = some (v, t) → v = FS P.toLPlan xf.w i) ∧
+    (∀ i, P.regOf i = some false → ∃ t, xf.w.st i = some (FS P.toLPlan w0 i, t)) ∧
+    (∀ o, P.out = some o → o ∈ P.nodes → ∀ a, physOut P = some a → xf.get P a = FS P.toLPlan w0 o) := by
+  intro xf
+  have hL := toLPlan_wf S.wf
+  have I : XInv P w0 c0 s.okd xf := xinv_reach S h
+  have hall := (Engine.C04_exact (engine_wf P) hw h (rank := id) (engine_ranked S.wf) hc hf).2
+  have hFS : ∀ k, FS P.toLPlan xf.w k = FS P.toLPlan w0 k := by
+    apply FS_congr hL
+    intro k hk
+    have hk' : P.regOf k = some true := hk
+    have := I.untouched k (write_not_okd_of_not S h I (by rw [hk']; simp))
+    simp [World.content, this]
+  have hstored : ∀ i, P.regOf i = some false → ∃ t, xf.w.st i = some (FS P.toLPlan w0 i, t) := by
+    intro i hri
+    by_cases hst : P.isStale i = true
+    · obtain ⟨t, ht, _⟩ := I.written i ((hall _).mpr (write_kept S.wf hri hst))
+      exact ⟨t, ht⟩
+    · have hu := I.untouched i (write_not_okd_of_not S h I (fun hh => hst hh.2))
+      obtain ⟨t, ht⟩ := fresh_content hL S.good (u := i) hri (by rw [← S.stale]; simpa using hst)
+      exact ⟨t, by rw [hu, ht]⟩
+  refine ⟨hFS, ?_, hstored, ?_⟩
+  · intro i v t hri hst
+    obtain ⟨t', ht'⟩ := hstored i hri
+    rw [ht'] at hst
+    simp only [Option.some.injEq, Prod.mk.injEq] at hst
+    rw [hFS, ← hst.1]
+  · intro o ho hon a ha
+    simp only [physOut, ho, Option.map_some, Option.some.injEq] at ha
+    cases hr : P.regOf o with
+    | some sr =>
+      simp only [hr, Option.isSome_some, if_true] at ha
+      subst ha
+      have hb : PN.read o ∈ (physBuild P).nodes := read_mem (r := (o, sr)) (mem_of_regOf hr)
+      have hk := out_kept (P := P) (a := .read o) (by simp [physOut, ho, hr]) hb
+      have := (hall _).mpr (engine_of_final hk rfl)
+      simp only [XSt.get, I.readOk o this, Option.getD_some]
+    | none =>
+      simp only [hr, Option.isSome_none, Bool.false_eq_true, if_false] at ha
+      subst ha
+      by_cases hl : P.lits.contains o = true
+      · simp only [XSt.get, hl, if_true]
+        exact (FS_lit S h I hl (by rw [hr]; simp)).symm
+      · have hl' : P.lits.contains o = false := by simpa using hl
+        have hk := out_kept (P := P) (a := .orig o) (by simp [physOut, ho, hr]) (orig_mem hon)
+        have := (hall _).mpr (engine_of_final hk (by simpa [PN.isLit] using hl'))
+        simp only [XSt.get, hl', Bool.false_eq_true, if_false, I.origOk o this hl' (by rw [hr]; simp), Option.getD_some]
+
+/-! Non-vacuity of the end-to-end theorems: source 0 → stored call 1 → stored call 2 (the output); the source holds a
+    value, both stored values are missing.  The hypotheses `Setup` hold, a schedule of the engine model runs the physical
+    plan to a normal return, and the execution leaves `a2(a1(s0.1))` in store 2 and in the output slot. -/
+namespace ExQ
+open Uberjob.Phys Uberjob.Exec
+
+def exQ : Input :=
+  ⟨[0, 1, 2], [], [⟨0, 1, .pos 0⟩, ⟨1, 2, .pos 0⟩], [(0, true), (1, false), (2, false)], [1, 2], some 2⟩
+def w0q : World := ⟨fun i => if i = 0 then some (.src 0 1, 1) else none⟩
+def exQrun : List Engine.Label :=
+  [.spawn,
+   .get 0 (.node 4), .check 0, .finOk 0, .release 0 5, .taskDone 0,
+   .get 0 (.node 5), .check 0, .finOk 0, .release 0 7, .taskDone 0,
+   .get 0 (.node 7), .check 0, .finOk 0, .release 0 9, .taskDone 0,
+   .get 0 (.node 9), .check 0, .finOk 0, .release 0 10, .taskDone 0,
+   .get 0 (.node 10), .check 0, .finOk 0, .release 0 12, .taskDone 0,
+   .get 0 (.node 12), .check 0, .finOk 0, .release 0 14, .taskDone 0,
+   .get 0 (.node 14), .check 0, .finOk 0, .taskDone 0,
+   .joinReturn, .setStop, .putDone, .get 0 .done, .check 0, .taskDone 0, .joined]
+
+theorem isStale_isolated {L : LPlan} (hL : L.WF) (w : World) (F : Option Int) {x : Nat}
+    (hp : L.preds x = []) (hr : L.reg x = none) : isStale L w F x = false := by
+  unfold isStale
+  rw [sres_eq hL]
+  simp [staleStepF, hp, hr]
+
+theorem exQ_setup : Setup exQ w0q none 2 where
+  wf := by constructor <;> decide
+  stale := by
+    intro x
+    by_cases hx : x < 3
+    · have : x = 0 ∨ x = 1 ∨ x = 2 := by omega
+      rcases this with rfl | rfl | rfl <;> decide
+    · have h1 : exQ.isStale x = false := by
+        simp only [Input.isStale, exQ, List.contains_eq_mem, List.mem_cons, List.not_mem_nil, or_false,
+          decide_eq_false_iff_not]
+        omega
+      rw [h1]
+      symm
+      apply isStale_isolated (toLPlan_wf (by constructor <;> decide))
+      · show exQ.logicalPreds x = []
+        simp only [Input.logicalPreds, exQ, List.filter_cons, List.filter_nil]
+        have h1 : ((1 : Nat) == x) = false := by simp; omega
+        have h2 : ((2 : Nat) == x) = false := by simp; omega
+        simp [h1, h2, dedup]
+      · show exQ.regOf x = none
+        simp only [Input.regOf, exQ, List.find?_cons, List.find?_nil]
+        have h0 : ((0 : Nat) == x) = false := by simp; omega
+        have h1 : ((1 : Nat) == x) = false := by simp; omega
+        have h2 : ((2 : Nat) == x) = false := by simp; omega
+        simp [h0, h1, h2]
+  srcFresh := by
+    intro i hi
+    simp only [Input.isStale, exQ, List.contains_eq_mem, List.mem_cons, List.not_mem_nil, or_false,
+      decide_eq_false_iff_not]
+    intro hc
+    rcases hc with rfl | rfl <;> simp [Input.regOf, exQ] at hi
+  litArgs := by decide
+  good := good_empty _ (by
+    intro i hi
+    have : i ≠ 0 := by
+      rintro rfl
+      have : exQ.toLPlan.reg 0 = some true := by decide
+      rw [this] at hi; cases hi
+    simp [w0q, this])
+  below := by
+    intro i m hm
+    by_cases hi : i = 0
+    · subst hi; simp [World.mtime, w0q] at hm; omega
+    · simp [World.mtime, w0q, hi] at hm
+  fresh := by intro f hf; cases hf
+
+theorem exQ_run : ∃ s, Engine.Reach (engineGraph exQ) ⟨1, some 0⟩ s ∧ s.coord = .returned false ∧ s.failed = [] ∧
+    s.okd = [4, 5, 7, 9, 10, 12, 14] := by
+  have hd : (Engine.run? (engineGraph exQ) ⟨1, some 0⟩ (Engine.init (engineGraph exQ)) exQrun).map
+      (fun s => (s.coord, s.failed, s.okd)) = some (.returned false, [], [4, 5, 7, 9, 10, 12, 14]) := by decide
+  cases hr : Engine.run? (engineGraph exQ) ⟨1, some 0⟩ (Engine.init (engineGraph exQ)) exQrun with
+  | none => rw [hr] at hd; cases hd
+  | some s =>
+    rw [hr] at hd
+    simp only [Option.map_some, Option.some.injEq, Prod.mk.injEq] at hd
+    exact ⟨s, Engine.reach_of_run Engine.Reach.init hr, hd.1, hd.2.1, hd.2.2⟩
+
+example : ((execOrder exQ (initX w0q 2) [4, 5, 7, 9, 10, 12, 14]).w.st 2).map (fun p => (p.1.toStr, p.2))
+    = some ("a2(a1(s0.1))", 3) := by decide
+example : ((execOrder exQ (initX w0q 2) [4, 5, 7, 9, 10, 12, 14]).get exQ (.read 2)).toStr = "a2(a1(s0.1))" := by decide
+example : (FS exQ.toLPlan w0q 2).toStr = "a2(a1(s0.1))" := by decide
+
+end ExQ
 
 /-! Non-vacuity: a history with a stale stored value, then the repairing run. -/
 def chainQ : LPlan := ⟨3, fun i => if i = 0 then [] else [i - 1], fun i => if i = 0 then [] else [i - 1],
